@@ -64,21 +64,23 @@ func drawEntry(t *rapid.T, id int) entry {
 	for i := range segs {
 		segs[i] = rapid.SampledFrom(segAlphabet).Draw(t, "seg")
 	}
-	p := strings.Join(segs, "/")
-	switch rapid.IntRange(0, 5).Draw(t, "shape") {
-	case 0: // no leading slash
-	case 1:
-		p = "/" + p + "/"
-	case 2:
-		p = "//" + p
-	case 3:
-		if depth >= 2 {
-			p = "/" + segs[0] + "//" + strings.Join(segs[1:], "/")
-		} else {
-			p = "/" + p
+	// slash noise: 0-2 leading, 1-2 between segments, 0-2 trailing (mostly the plain spelling)
+	slashes := func(label string, lo int) string {
+		n := rapid.SampledFrom([]int{1, 1, 1, 1, 0, 2}).Draw(t, label)
+		if n < lo {
+			n = lo
 		}
-	default:
-		p = "/" + p
+		return strings.Repeat("/", n)
+	}
+	p := slashes("lead", 0)
+	for i, sg := range segs {
+		if i > 0 {
+			p += slashes("sep", 1)
+		}
+		p += sg
+	}
+	if rapid.IntRange(0, 3).Draw(t, "trail") == 0 {
+		p += strings.Repeat("/", rapid.IntRange(1, 2).Draw(t, "ntrail"))
 	}
 	return entry{ID: id, Verb: rapid.SampledFrom(verbs).Draw(t, "verb"), Path: p, segs: refSegments(p)}
 }
